@@ -2,7 +2,6 @@
 """setup_cmd: byte-compile the harness (syntax check) and parse every spec with SANY."""
 import glob
 import os
-import py_compile
 import sys
 from concurrent.futures import ThreadPoolExecutor
 
@@ -15,8 +14,9 @@ def main():
     bad = 0
     for p in glob.glob(os.path.join(HERE, '**', '*.py'), recursive=True):
         try:
-            py_compile.compile(p, cfile=os.devnull, doraise=True)
-        except py_compile.PyCompileError as e:
+            with open(p) as f:
+                compile(f.read(), p, 'exec')
+        except SyntaxError as e:
             print('PY-ERROR', p, e)
             bad += 1
     mods = sorted(glob.glob(os.path.join(tlc.SPECS, '*', '*.tla')))
